@@ -155,7 +155,16 @@ def execute(
         return runtime.ensure_wrapped(
             runtime.map_value(
                 runtime.unwrap_value(
-                    exe_fn(root_type, initial_value, [], root_fields)
+                    # Started through the runtime: an exception raised by the
+                    # synchronous part of the execution (e.g. by a resolver
+                    # the executor runs inline) fails the wrapped value of a
+                    # deferred runtime instead of being raised at the call.
+                    runtime.map_value(
+                        runtime.ensure_wrapped(None),
+                        lambda _: exe_fn(
+                            root_type, initial_value, [], root_fields
+                        ),
+                    )
                 ),
                 _on_finish,
                 else_=(aborting, _on_abort),  # type: ignore
